@@ -126,7 +126,13 @@ template <class T> void check44 (const Matrix44<T>& M, MInfo mi, ATally& t)
     const std::string P = std::string ("<") + tname<T> () + ">";
     {
         M44 c (M); V3 s (0), h (0);
-        mi.ref_failed = !extractAndRemoveScalingAndShear (c, s, h, false);
+        // the reference classification itself is an exc=false call: it must not throw either
+        int thr = run_checked ([&] { mi.ref_failed = !extractAndRemoveScalingAndShear (c, s, h, false); });
+        if (thr != NONE)
+        {
+            C0X_FAIL ("extractAndRemoveScalingAndShear(Matrix44" + P + ").exc=false-throws", show44 (M), "no exception", thrown_name (thr));
+            mi.ref_failed = true;
+        }
     }
     // zero row of the linear block
     for (int i = 0; i < 3; ++i)
@@ -196,7 +202,12 @@ template <class T> void check33 (const Matrix33<T>& M, MInfo mi, ATally& t)
     const std::string P = std::string ("<") + tname<T> () + ">";
     {
         M33 c (M); V2 s (0); T h = 0;
-        mi.ref_failed = !extractAndRemoveScalingAndShear (c, s, h, false);
+        int thr = run_checked ([&] { mi.ref_failed = !extractAndRemoveScalingAndShear (c, s, h, false); });
+        if (thr != NONE)
+        {
+            C0X_FAIL ("extractAndRemoveScalingAndShear(Matrix33" + P + ").exc=false-throws", show33 (M), "no exception", thrown_name (thr));
+            mi.ref_failed = true;
+        }
     }
     for (int i = 0; i < 2; ++i)
         if (M[i][0] == 0 && M[i][1] == 0) mi.zero_row = true;
